@@ -32,7 +32,7 @@ func newVC(P *Program, fn *ssa.Function, spec *FuncSpec) *VC {
 		declared: map[string]bool{}, vals: map[ssa.Value]Term{}, tuples: map[ssa.Value][]Term{},
 		stateSort: map[string]string{}, written: map[*ssa.BasicBlock]map[string]map[string]bool{},
 		lets: map[string]Term{}, usedExterns: map[string]bool{}, usedSpecs: map[string]bool{},
-		funDecls: map[string]bool{}, recInfo: map[string]*recInfo{}, allocBlock: map[string]*ssa.BasicBlock{}, globalPkg: map[string]string{}}
+		funDecls: map[string]bool{}, recInfo: map[string]*recInfo{}, allocBlock: map[string]*ssa.BasicBlock{}, globalPkg: map[string]string{}, ssaByName: map[string]ssa.Value{}}
 	return vc
 }
 
@@ -257,6 +257,7 @@ func (vc *VC) define(v ssa.Value, t Term) {
 		n = fmt.Sprintf("%s_%d", n, len(vc.decls))
 	}
 	vc.declare(n, t.Sort)
+	vc.ssaByName[n] = v
 	vc.assume(sx("=", n, t.S))
 	if b, ok := vc.allocBlock[t.S]; ok {
 		vc.allocBlock[n] = b
@@ -821,8 +822,47 @@ func (vc *VC) bindLocalsAt(e *Env, at *ssa.BasicBlock, inclusive bool) {
 		}
 		return in.Block().Dominates(at)
 	}
-	for name, vs := range cands {
+	// a variable living in a cell is read through the cell: the SSA values its debug references name
+	// are snapshots of earlier loads and stores
+	cellBound := map[string]bool{}
+	for name, as := range cells {
 		if _, bound := e.vars[name]; bound {
+			continue
+		}
+		if _, bound := e.vars["&"+name]; bound {
+			cellBound[name] = true
+			continue
+		}
+		var best *ssa.Alloc
+		ambiguous := false
+		for _, a := range as {
+			if !visible(a) {
+				continue
+			}
+			switch {
+			case best == nil:
+				best = a
+			case a.Block() == best.Block():
+				if instrIndex(a) > instrIndex(best) {
+					best = a
+				}
+			case best.Block().Dominates(a.Block()):
+				best = a
+			case a.Block().Dominates(best.Block()):
+			default:
+				ambiguous = true
+			}
+		}
+		if best == nil || ambiguous {
+			continue
+		}
+		if t, ok := vc.vals[best]; ok {
+			e.vars["&"+name] = t
+			cellBound[name] = true
+		}
+	}
+	for name, vs := range cands {
+		if _, bound := e.vars[name]; bound || cellBound[name] {
 			continue
 		}
 		if len(vs) != 1 {
@@ -860,40 +900,6 @@ func (vc *VC) bindLocalsAt(e *Env, at *ssa.BasicBlock, inclusive bool) {
 			} else if c, ok := v.(*ssa.Const); ok {
 				e.vars[name] = vc.constVal(c)
 			}
-		}
-	}
-	for name, as := range cells {
-		if _, bound := e.vars[name]; bound {
-			continue
-		}
-		if _, bound := e.vars["&"+name]; bound {
-			continue
-		}
-		var best *ssa.Alloc
-		ambiguous := false
-		for _, a := range as {
-			if !visible(a) {
-				continue
-			}
-			switch {
-			case best == nil:
-				best = a
-			case a.Block() == best.Block():
-				if instrIndex(a) > instrIndex(best) {
-					best = a
-				}
-			case best.Block().Dominates(a.Block()):
-				best = a
-			case a.Block().Dominates(best.Block()):
-			default:
-				ambiguous = true
-			}
-		}
-		if best == nil || ambiguous {
-			continue
-		}
-		if t, ok := vc.vals[best]; ok {
-			e.vars["&"+name] = t
 		}
 	}
 }
@@ -1012,7 +1018,7 @@ func (vc *VC) loopHeader(li *loopInfo, b *ssa.BasicBlock, st *State, back map[[2
 					precise, freshOnly = false, false
 					continue
 				}
-				inv := loopInvariantTerm(ix)
+				inv := vc.invariantIn(li, ix)
 				if !inv {
 					precise = false
 				}
@@ -1038,7 +1044,7 @@ func (vc *VC) loopHeader(li *loopInfo, b *ssa.BasicBlock, st *State, back map[[2
 				vc.declarePre(li.ordinal)
 				conds := []string{sx(pre, "x")}
 				for _, ix := range sortedKeys(wr[k]) {
-					if loopInvariantTerm(ix) {
+					if vc.invariantIn(li, ix) {
 						conds = append(conds, not(sx("=", "x", ix)))
 					}
 				}
@@ -1053,7 +1059,7 @@ func (vc *VC) loopHeader(li *loopInfo, b *ssa.BasicBlock, st *State, back map[[2
 				nw := vc.havoc(nst, k, s)
 				conds := []string{sx("is_old", "x")}
 				for _, ix := range sortedKeys(wr[k]) {
-					if loopInvariantTerm(ix) {
+					if vc.invariantIn(li, ix) {
 						conds = append(conds, not(sx("=", "x", ix)))
 					}
 				}
@@ -1863,18 +1869,29 @@ func (vc *VC) exit(st *State, results []Term, guard string, pos token.Pos) {
 		pos = vc.fn.Pos()
 	}
 	env := vc.selfEnv(st, results)
+	// named locals in scope at this return are visible to ghost assignments (snapshots of local state)
+	genv := vc.selfEnv(st, results)
+	if vc.curBlock != nil {
+		vc.bindLocalsAt(genv, vc.curBlock, true)
+	}
 	// ghost assignments of the contract are executed at the return
 	for _, c := range vc.spec.clauses("ghostset") {
-		t, err := env.translate(c.Expr)
-		if err != nil {
-			panic(execErr(vc.clauseErr(c, err).Error()))
-		}
-		t = env.value(t)
 		targets := vc.exprTargets(env, c.LHS, c.Name)
 		if len(targets) != 1 {
 			panic(execErr("ghost assignment target must be one ghost location: " + c.Name))
 		}
 		tg := targets[0]
+		t, err := genv.translate(c.Expr)
+		if err != nil {
+			if strings.Contains(err.Error(), "unknown identifier") && tg.idx == "" {
+				// the right-hand side mentions a local that is not in scope at this return (an early exit):
+				// the ghost variable becomes arbitrary here
+				vc.havoc(st, tg.name, tg.sort)
+				continue
+			}
+			panic(execErr(vc.clauseErr(c, err).Error()))
+		}
+		t = genv.value(t)
 		if tg.idx == "" {
 			vc.set(st, tg.name, tg.sort, t.S)
 		} else {
